@@ -94,6 +94,21 @@ def handle (cmd : String) (args : List String) : Option String :=
       if points.length ≠ deltas.length ∨ points.length < 4 then none else
       some (showPts (adjustSimple points deltas))
     | _, _ => none
+  | "ap.cadjust", [pp0x] :: deltas :: comps =>
+    match parseInt? pp0x, pts? deltas with
+    | some pp0x, some deltas =>
+      match comps.mapM (fun (c : List String) =>
+          match c with
+          | "C" :: um :: off :: cpp :: rest =>
+            match parseNat? um, parsePt? off, parseInt? cpp, pts? rest with
+            | some um, some off, some cpp, some ps =>
+              if um > 1 then none else
+              some ({ pts := ps, pp0x := cpp, useMyMetrics := um == 1, offset := off } : Comp)
+            | _, _, _, _ => none
+          | _ => none) with
+      | some cs => some (showPts (adjustComposite pp0x deltas cs))
+      | none => none
+    | _, _ => none
   | _, _ => none
 
 end FontVerif.Drv.C10Apply
